@@ -200,3 +200,66 @@ def known_region(case, impl_out, model_out, spec):
     if m.startswith("pyexc") or m == "unmodelled" or m.endswith(" unmodelled"):
         return "F7"
     return None
+
+
+def custom(run, tier):
+    """The decorated thing need not be a plain function: `dltyped` on top of a staticmethod object, a jitted function, another
+    `functools.wraps` decorator.  Every rejection is still the DLTypeError of its kind (the error path has no business with
+    attributes only plain functions have)."""
+    import functools
+    import typing
+    import warnings
+
+    import jax
+    import numpy as np
+
+    import impl
+    from framework import Finding
+
+    dltype = impl.dltype
+    A = typing.Annotated[np.ndarray, dltype.FloatTensor["a b"]]
+    J = typing.Annotated[jax.Array, dltype.FloatTensor["a b"]]
+    ns = {"A": A, "J": J}
+    exec(compile("def f(x: A, y: A, bad_return=False) -> A:\n    return None if bad_return else x\n"
+                 "def fj(x: J, y: J) -> J:\n    return x\n", "<c08>", "exec", dont_inherit=True), ns)  # noqa: S102
+    f, fj = ns["f"], ns["fj"]
+
+    def wrapped():
+        @functools.wraps(f)
+        def inner(*args, **kwargs):
+            return f(*args, **kwargs)
+
+        return inner
+
+    def z(*s, dt=np.float32):
+        return np.zeros(s, dt)
+
+    kinds = {"staticmethod": (lambda: dltype.dltyped()(staticmethod(f)), lambda v: v), "jax.jit": (lambda: dltype.dltyped()(jax.jit(fj)), jax.numpy.asarray),
+             "functools.wraps": (lambda: dltype.dltyped()(wrapped()), lambda v: v), "function": (lambda: dltype.dltyped()(f), lambda v: v)}
+    faults = {"none": ((z(2, 3), z(2, 3)), {}, "ok"), "rank": ((z(2,), z(2, 3)), {}, "DLTypeNDimsError"), "dtype": ((z(2, 3, dt=np.int32), z(2, 3)), {}, "DLTypeDtypeError"),
+              "size": ((z(2, 3), z(2, 4)), {}, "DLTypeShapeError"), "non-array": ((5, z(2, 3)), {}, "DLTypeUnsupportedTensorTypeError"),
+              "non-array return": ((z(2, 3), z(2, 3)), {"bad_return": True}, "DLTypeUnsupportedTensorTypeError")}
+    n = 0
+    with warnings.catch_warnings():
+        warnings.simplefilter("ignore")
+        for kn, (mk, conv) in kinds.items():
+            try:
+                g = mk()
+            except Exception as e:  # noqa: BLE001
+                run.findings.append(Finding("failing-input", f"dltyped on top of a {kn} object cannot be built: {type(e).__name__}", Case(f"CALLABLE\t{kn}\tdecorate", "callable"), type(e).__name__))
+                continue
+            for fn, (args, kw, want) in faults.items():
+                if kw and kn == "jax.jit":
+                    continue
+                n += 1
+                try:
+                    g(*[conv(a) if isinstance(a, np.ndarray) else a for a in args], **kw)
+                    got = "ok"
+                except Exception as e:  # noqa: BLE001
+                    got = type(e).__name__
+                if got != want:
+                    run.findings.append(Finding("failing-input", f"dltyped on top of a {kn} object, fault `{fn}`: {got}, expected {want}", Case(f"CALLABLE\t{kn}\t{fn}", "callable"), got, "", want))
+    run.n_cases += n
+    run.n_distinct_nontrivial += n
+    run.dist["callables"] += n
+    run.coverage["callable_kinds"] = list(kinds)
